@@ -136,15 +136,19 @@ fn decl_candidate(it: &Value) -> bool {
 pub fn erase(p: &Value, rng: &mut Rng, max_sites: usize) -> (Value, Vec<Value>) {
     let mut q = p.clone();
     let mut sites = Vec::new();
-    // count the candidates
+    // count the candidates (global index in visiting order; declarations and literals in separate pools)
     let mut total = 0usize;
+    let mut decl_pool = Vec::new();
+    let mut lit_pool = Vec::new();
     for f in q["fns"].as_array_mut().unwrap() {
         for it in f["body"].as_array_mut().unwrap() {
             if decl_candidate(it) {
+                decl_pool.push(total);
                 total += 1;
             }
             walk_item(it, &mut |e| {
                 if lit_candidate(e) {
+                    lit_pool.push(total);
                     total += 1;
                 }
             });
@@ -152,6 +156,7 @@ pub fn erase(p: &Value, rng: &mut Rng, max_sites: usize) -> (Value, Vec<Value>) 
         if f.get("res").is_some() && f["ret"]["k"] != "void" {
             walk_expr(&mut f["res"], &mut |e| {
                 if lit_candidate(e) {
+                    lit_pool.push(total);
                     total += 1;
                 }
             });
@@ -162,8 +167,15 @@ pub fn erase(p: &Value, rng: &mut Rng, max_sites: usize) -> (Value, Vec<Value>) 
     }
     let want = rng.range(1, max_sites.max(1)).min(total);
     let mut chosen = std::collections::BTreeSet::new();
-    while chosen.len() < want {
-        chosen.insert(rng.below(total));
+    let mut guard = 0;
+    while chosen.len() < want && guard < 200 {
+        guard += 1;
+        // declarations are rare among the candidates: give them half of the picks
+        let pool = if !decl_pool.is_empty() && (lit_pool.is_empty() || rng.chance(50)) { &decl_pool } else { &lit_pool };
+        if pool.is_empty() {
+            break;
+        }
+        chosen.insert(pool[rng.below(pool.len())]);
     }
     let mut at = 0usize;
     for f in q["fns"].as_array_mut().unwrap() {
